@@ -22,6 +22,7 @@ package entrypoint
 
 import (
 	"errors"
+	"fmt"
 
 	errorsmod "cosmossdk.io/errors"
 	sdk "github.com/cosmos/cosmos-sdk/types"
@@ -126,10 +127,18 @@ func (i IBCMiddleware) OnRecvPacket(
 	return ack
 }
 
+// newErrorAcknowledgement returns the error acknowledgement of the orbiter middleware.
+//
+// NOTE: the acknowledgement is committed to state, hence it MUST be the same on every node.
+// Error strings do not give this guarantee (e.g. the JSON codec reports an arbitrary one of the
+// unknown fields of a memo, picked by iterating a map), so, as ibc-go does for its own error
+// acknowledgements, only the ABCI code of the error is included.
 func newErrorAcknowledgement(err error) channeltypes.Acknowledgement {
+	_, code, _ := errorsmod.ABCIInfo(err, false)
+
 	return channeltypes.Acknowledgement{
 		Response: &channeltypes.Acknowledgement_Error{
-			Error: errorsmod.Wrap(err, "orbiter-middleware error").Error(),
+			Error: fmt.Sprintf("orbiter-middleware error: ABCI code: %d: error handling packet", code),
 		},
 	}
 }
